@@ -170,6 +170,17 @@ def plan_api(tier, seed, props):
             item("obj_2", SETMERGE, max=n), item("deep", NONE, max=n), item("mergedeep", MERGE, max=n)]
 
 
+def plan_ya(tier, seed, props):
+    q = tier == "quick"
+    return [dict(family="yamldocs", opts=NONE, frac=1.0, void=False, nf=False),
+            dict(family="obj_2", opts=NONE, frac=1.0, void=False, nf=False),
+            dict(family="deep", opts=NONE, frac=1.0, void=False, nf=False),
+            dict(family="nestarr_2", opts=NONE, frac=1.0, void=False, nf=False),
+            dict(family="mergedocs", opts=NONE, frac=1.0, void=False, nf=False),
+            dict(family="objptr", opts=NONE, frac=0.3 if q else 1.0, void=False, nf=False),
+            dict(family="confusable", opts=NONE, frac=1.0, void=False, nf=False)]
+
+
 def followup_vary(sc, jdv, st, tr, tag, seed):
     """pass 2 of C10: TLC applies the variation operators to the real patches of pass 1"""
     out = sc.sub("vary-" + tag)
@@ -212,6 +223,10 @@ CHECKS = {
     "C14": dict(stages=[Stage("proc", "TraceCli", lambda t, s, p: [], bins=True, extra={"frac": "FRAC"})], design=["MCCli"],
                 rule="session = one invocation of the matrix of Cli.tla (binary x reading flags x format x yaml x color x -o x input pair, "
                      "error and translation invocations), its stdin twin and the follow-up jd -p run on its output"),
+    "C16": dict(stages=[Stage("ya", "TraceCarrier", plan_ya, bins=True, table="yaml")], design=[], level="exploration",
+                rule="case = one document of the model-generated universe under the yaml-hostile string table (40 strings that look like "
+                     "numbers, booleans, null or YAML syntax, in root / member / value / key position): three library legs, yaml-born vs "
+                     "json-born equality, and two CLI protocols; non-trivial = the document contains a hostile string or a container"),
     "C03": dict(stages=[Stage("pt", "TraceDP", plan_pt)], design=["MCPatch"],
                 rule="session = one list-mode diff with its sub-sequences applied to a, b and perturbed targets; "
                      "non-trivial = at least one target rejected and one accepted"),
